@@ -423,7 +423,7 @@ def run(tier: str, seed: int) -> int:
     quick = tier == "quick"
     n_lines, n_engine, n_mut_per_file, depth, cap, n_walks, walk_len = \
         (450, 90, 3, MAX_DEPTH_QUICK, 60, 4, 12) if quick else (4000, 900, 25, MAX_DEPTH_THOROUGH, 400, 20, 40)
-    n_defaults, matrix_share = (120, 0.12) if quick else (1200, 1.0)
+    n_defaults, matrix_share = (80, 0.2) if quick else (400, 0.5)
     dist = {"families": {}, "outcomes": {}, "accepted": {}, "call_sites": {"choice": 0, "jump": 0, "nested": 0, "with-args": 0,
                                                                            "to-@join": 0},
             "play": {"stories": 0, "paths": 0, "engine_steps": 0, "timeouts": 0, "capped_stories": 0, "other_exceptions": {}}}
